@@ -41,6 +41,8 @@ def rfc9112_framing(is_request: bool, req_method: bytes | None, status: int | No
 
     te_values / cl_values: the raw field values of all Transfer-Encoding / Content-Length field lines, in order."""
     if not is_request:
+        if status == 101:
+            return ("tunnel",)  # RFC 9110 §15.2.2: the protocol is switched right after the empty line that ends the 101 head
         # rule 1
         if req_method == b"HEAD":  # RFC 9110 §9.1: the method token is case-sensitive
             return ("none",)
